@@ -845,12 +845,23 @@ def repr_values(condition: Callable[..., bool], lambda_inspection: Optional[Cond
     for key in sorted(reprs.keys()):
         value = reprs[key]
         if isinstance(value, icontract._recompute.FirstExceptionInAll):
-            writing = ['{} was False, e.g., with'.format(key)]
-            for input_name, input_value in value.inputs:
-                writing.append('\n')
-                writing.append('  {} = {}'.format(input_name, a_repr.repr(input_value)))
+            # The loop variables are filtered as all the other values (*e.g.*, a function would be shown with its
+            # address in memory, which makes the message differ from run to run).
+            inputs = [
+                (input_name, input_value)
+                for input_name, input_value in value.inputs
+                if _representable(value=input_value)
+            ]
 
-            parts.append(''.join(writing))
+            if len(inputs) == 0:
+                parts.append('{} was False'.format(key))
+            else:
+                writing = ['{} was False, e.g., with'.format(key)]
+                for input_name, input_value in inputs:
+                    writing.append('\n')
+                    writing.append('  {} = {}'.format(input_name, a_repr.repr(input_value)))
+
+                parts.append(''.join(writing))
         else:
             parts.append('{} was {}'.format(key, a_repr.repr(value)))
 
